@@ -333,7 +333,13 @@ def run_tasks(exe, tasks, tag, seed=None):
     open(tf, 'w').write('\n'.join(tasks) + '\n')
     env = dict(os.environ)
     env['ASAN_OPTIONS'] = 'detect_leaks=0'
-    r = subprocess.run([exe, tf], stdout=subprocess.PIPE, stderr=subprocess.PIPE, env=env)
+    try:
+        # a change that makes a generator loop forever must not hang the check (seen with a sign flipped in fe1_mod1: the
+        # rejection loop of bb never accepts): the run is cut and reported, the caller turns that into "undecided" (exit 2)
+        r = subprocess.run([exe, tf], stdout=subprocess.PIPE, stderr=subprocess.PIPE, env=env, timeout=int(os.environ.get('VERIF_NATIVE_TIMEOUT', '900')))
+    except subprocess.TimeoutExpired as e:
+        os.remove(tf)
+        return 124, (e.stdout or b'').decode('utf8', 'replace'), 'TIMEOUT: the native run of %s did not finish (non-terminating generation?)' % tag
     os.remove(tf)
     return r.returncode, r.stdout.decode('utf8', 'replace'), r.stderr.decode('utf8', 'replace')
 
